@@ -29,7 +29,7 @@ PROPS = ["IsoVerif/Props/C11.lean", "IsoVerif/Props/C11Lists.lean", "IsoVerif/Pr
          "IsoVerif/Props/C11Resolver.lean", "IsoVerif/Props/C11Graph.lean",
          "IsoVerif/Props/C11MirrorLists.lean", "IsoVerif/Props/C11MirrorReadProfiles.lean",
          "IsoVerif/Props/C11Bed.lean", "IsoVerif/Props/C11Corrector.lean", "IsoVerif/Props/C11Gtf.lean",
-         "IsoVerif/Props/C11AssignMirror.lean", "IsoVerif/Props/C11Strand.lean"]
+         "IsoVerif/Props/C11AssignMirror.lean", "IsoVerif/Props/C11Strand.lean", "IsoVerif/Props/C11MonoNovel.lean"]
 TARGETS = ["IsoVerif.Props.C11", "IsoVerif.Props.C11Lists", "IsoVerif.Props.C11Mirror", "IsoVerif.Props.C11Profiles",
            "IsoVerif.Props.C11Polya", "IsoVerif.Props.C11Canonical",
            "IsoVerif.Props.C11Cigar", "IsoVerif.Props.C11PolyA16", "IsoVerif.Props.C11Finder", "IsoVerif.Props.C11FinderMirror",
@@ -37,7 +37,7 @@ TARGETS = ["IsoVerif.Props.C11", "IsoVerif.Props.C11Lists", "IsoVerif.Props.C11M
            "IsoVerif.Props.C11Assign", "IsoVerif.Props.C11Resolver", "IsoVerif.Props.C11Graph",
            "IsoVerif.Props.C11MirrorLists", "IsoVerif.Props.C11MirrorReadProfiles",
            "IsoVerif.Props.C11Bed", "IsoVerif.Props.C11Corrector", "IsoVerif.Props.C11Gtf",
-           "IsoVerif.Props.C11AssignMirror", "IsoVerif.Props.C11Strand"]
+           "IsoVerif.Props.C11AssignMirror", "IsoVerif.Props.C11Strand", "IsoVerif.Props.C11MonoNovel"]
 GEN_DEPS = ["Prims", "Enums", "EventClasses", "Constants", "CigarClasses", "Strategies", "Resolver", "ModelConstruction", "Corrector"]
 LEVEL = "proof"
 RULE = ("relations S.<fn> (shift k) and M.<fn> (mirror L) on: exhaustive interval pairs over 0..U x delta 0..3 x "
@@ -62,8 +62,11 @@ ASSUMPTIONS = ["CPython int semantics = Lean Int", "float results compared as ex
                "quantifier); the sentinel-as-coordinate defect of detect_reference_exons_beyond_polya / before_polyt found by "
                "these proofs is FIXED in /repo (a2ae069): the assigner theorems carry no origin-distance hypothesis any more, "
                "the pre-fix bodies (detectBeyondPolyaBuggy / detectBeforePolytBuggy) keep regression witnesses",
-               "EndTie inputs (a block sharing exactly one end with a known feature and shorter than the overlap threshold) "
-               "are outside the property's quantifier (exact positional tie); the asymmetry is proved as a witness"]
+               "EndTie inputs (a block inside a known feature sharing exactly one end with it, shorter than the overlap "
+               "threshold -- e.g. the 4-base terminal block of a noise-free truncated read) are INSIDE the quantifier: the "
+               "asymmetry of overlaps_at_least / overlaps_at_least_when_overlap on them (audit2-C G7) is repaired by "
+               "fix_overlaps_at_least_end_tie.patch; the mirror theorems carry no EndTie hypothesis, the pre-fix bodies "
+               "(overlapsAtLeastBuggy / overlapsAtLeastWhenOverlapBuggy) keep their witnesses"]
 
 SHIFTS = [1, 255, 256, 1000]
 
@@ -233,8 +236,7 @@ def _min_coord(*lists):
 
 def in_domain(name, kw):
     """True: the relation is a theorem of the model (or, where marked `searched` in docs/C11.md, believed) for this
-    input, so it must hold on the real code.  'tie': the input is in the EndTie class, where the relation must
-    FAIL (exact characterisation `…_mirror_iff`).  False: outside the stated hypotheses (not evaluated)."""
+    input, so it must hold on the real code.  False: outside the stated hypotheses (not evaluated)."""
     kind, fn = name.split(".", 1)
     if kind == "S":
         k = kw["k"]
@@ -246,11 +248,9 @@ def in_domain(name, kw):
             return all(x != -1 and y + 1 != -1 and x + k != -1 and y + 1 + k != -1 for x, y in kw["l"])
         return True
     L = kw["L"]
-    if fn in ("overlaps_at_least", "overlaps_at_least_when_overlap"):
-        a, b = kw["a"], kw["b"]
-        if fn == "overlaps_at_least" and not (_wf(a) and _wf(b)):
-            return False
-        return "tie" if T.end_tie(a, b, kw["d"]) else True
+    # overlaps_at_least / overlaps_at_least_when_overlap: ALL inputs (mirror_dual_overlaps_at_least(_when_overlap) hold
+    # without hypothesis since the repair of audit2-C G7; the former `EndTie` class -- a range inside the other sharing
+    # exactly one end, shorter than the threshold -- is an ordinary input: a noise-free truncated read produces it)
     if fn in ("sum_intervals_to_point", "sum_intervals_from_point", "interval_bin_search", "interval_bin_search_rev"):
         return _sd(kw["l"])
     if fn in ("read_coverage_fraction", "jaccard_similarity", "merge_ranges"):
@@ -287,8 +287,8 @@ def in_domain(name, kw):
 def profile_mirror_domain(fn, kw):
     """reflection of the read-profile constructors is SEARCHED (not proved) on inputs shaped like the pipeline's:
     sorted features whose mirror image is sorted too (no strictly nested known features: the mirrored pipeline would
-    re-sort them), features and gaps longer than delta (the hypotheses of C19's read_profile_spec), no EndTie between
-    a read block / the mapped span and a known feature, tail positions inside the read span.
+    re-sort them), features and gaps longer than delta (the hypotheses of C19's read_profile_spec), tail positions
+    inside the read span.
     Returns False (not evaluated), True (gene, read and range compared) or 'gene' (gene profile and range only: a read
     feature overlaps a known one without matching it, where the sweep's marks of the READ features are known to
     depend on the sweep direction -- not observable, see docs/C11.md)."""
@@ -312,18 +312,13 @@ def profile_mirror_domain(fn, kw):
             return False
         for r in read:
             for k_ in known:
-                if T.end_tie(r, k_, kw["min_ov"]):
-                    return False
                 if C.overlaps(r, k_) and not C.overlaps_at_least_when_overlap(r, k_, kw["min_ov"]):
                     return False      # a block overlapping an exon by less than the threshold: sweep-direction dependent
         return True
     loose = any(C.overlaps(r, k_) and not C.equal_ranges(r, k_, d) for r in read for k_ in known)
     if kw["kind"] == "intron":
         m = tuple(kw["mapped"])
-        if not _wf(m) or any(T.end_tie(m, k_, kw["abs_d"]) for k_ in known):
-            return False
-        gr = tuple(kw["gene_region"])
-        if any(T.end_tie(gr, r, kw["abs_d"]) for r in read):
+        if not _wf(m):
             return False
         return "gene" if loose else True
     return "gene"     # exon profile: only the gene profile is ever read by the pipeline
@@ -572,9 +567,8 @@ def correspondence(ctx):
         # Python wraps negative indices where the model flags an error (C19): only well-formed lists are compared there
         ok_model = vlib.same(ml, mr)
         ok_impl = _eq_ii(il, ir)
-        if dom == "tie":
-            ctx.count("end_tie_inputs")
-            ok_model, ok_impl = not ok_model, not ok_impl
+        if name in ("M.overlaps_at_least", "M.overlaps_at_least_when_overlap") and T.end_tie(kw["a"], kw["b"], kw["d"]):
+            ctx.count("end_tie_inputs")          # counted only: they are ordinary inputs of the relation
         if not ok_corr:
             ctx.disagree(name, kw, {"lhs": ml, "rhs": mr}, {"lhs": il, "rhs": ir})
         elif not ok_model:
@@ -711,8 +705,6 @@ def oracle_relation(name, kw):
     if dom == "gene":
         il, ir = _gene_only(il), _gene_only(ir)
     ok = _eq_ii(il, ir)
-    if dom == "tie":
-        return None      # the tie class is outside the property's quantifier; nothing to flag on the real code
     return None if ok else "transformed call gives %s, transformed result is %s" % (il, ir)
 
 
@@ -1145,7 +1137,9 @@ def assign(models, read, polya):
 
 
 def has_end_tie(models, read, p):
-    """an exact positional tie (Props/C11.lean EndTie) between a read block / the read span and a known feature"""
+    """the class `EndTie` of Props/C11.lean (a read block / the read span inside a known feature, sharing exactly one end
+    with it, shorter than the threshold) -- the inputs on which the pre-fix overlap tests were not mirror-symmetric; used
+    to COUNT such inputs in the evidence, never to skip them"""
     vlib.repo_on_path()
     from src.gene_info import GeneInfo
     exons = sorted({tuple(e) for _, _, _, ex in models for e in ex})
@@ -1202,8 +1196,6 @@ def assigner_case(kw):
     read, polya = _tl(kw["read"]), tuple(kw["polya"])
     L, k = kw["L"], kw["k"]
     p = _params()
-    if has_end_tie(models, read, p):
-        return None
     base = assign(models, read, polya)
     sh = assign(T.shift_models(k, models), T.shift_l(k, read), T.shift_polya(k, polya))
     if sh != base:
@@ -1240,6 +1232,16 @@ REGRESSIONS = [
     {"models": [("T0", "G", "-", [(1500, 1559), (1710, 1909)]), ("T1", "G", "-", [(1500, 1519), (1710, 2209)]),
                 ("T2", "G", "-", [(1500, 1599), (1765, 1909)]), ("T3", "G", "-", [(1500, 1574), (1710, 1909)])],
      "read": [(1200, 1599), (1762, 2109)], "polya": (-1, -1, -1, -1), "L": 30000, "k": 1000},
+]
+
+
+# audit2-C G7: the noise-free 3'-truncated read whose last block keeps 4 bases (and the 5'-truncated one): unique E_t1 in
+# both orientations (pre-fix: unique vs ambiguous); run FIRST by the oracle so that the replay file names it
+END_TIE_REGRESSIONS = [
+    {"models": [("E_t0", "GE", "+", [(1003, 1220), (2121, 2305), (3002, 3225)]), ("E_t1", "GE", "+", [(1003, 1220), (2125, 2305), (3002, 3225)])],
+     "read": [(1003, 1220), (2125, 2305), (3002, 3005)], "polya": (-1, -1, -1, -1), "L": 9000, "k": 255},
+    {"models": [("E_t0", "GE", "+", [(1003, 1220), (2121, 2305), (3002, 3225)]), ("E_t1", "GE", "+", [(1003, 1220), (2125, 2305), (3002, 3225)])],
+     "read": [(1217, 1220), (2125, 2305), (3002, 3225)], "polya": (-1, -1, -1, -1), "L": 9000, "k": 1000},
 ]
 
 
@@ -1285,6 +1287,42 @@ def _canon_event(ev, inv_pos, inv_regions, swap):
     return "%s:%s" % (name, ",".join("%d-%d" % r for r in inv_regions(regs)))
 
 
+def _split_events(v):
+    evs = []
+    for tok in v.split(","):
+        if evs and re.fullmatch(r"\d+-\d+", tok):
+            evs[-1] += "," + tok        # continuation of the previous event's region list
+        else:
+            evs.append(tok)
+    return evs
+
+
+def _full_gtf_rows(P, path, inv, mirror):
+    """EVERY record of an output GTF (gene, transcript, exon, …) with all its attributes, coordinates mapped back:
+    (chr, feature, interval, strand, sorted attributes).  Canonicalised: the numbers of novel transcript / gene ids and
+    fresh exon ids (allocated in coordinate order), the events of `alternatives` (left/right swapped under reflection,
+    payload positions / regions mapped back), exon numbers of '.'-strand records (printed ascending in both
+    orientations: mirror_dual_featLines_unstranded_witness)"""
+    rows = []
+    for f in P.parse_gtf(path):
+        at = dict(f["attrs"])
+        c_ = f["chr"]
+        iv = inv["ivl"](c_, [(f["start"], f["end"])])[0]
+        for k_ in list(at):
+            v = at[k_]
+            if k_ in ("transcript_id", "gene_id") and (v.startswith("transcript") or v.startswith("novel_gene")):
+                at[k_] = re.sub(r"\d+", "N", v)
+            elif k_ == "exon_id":
+                at[k_] = "X"
+            elif k_ == "alternatives":
+                at[k_] = ",".join(sorted(_canon_event(e, lambda x: inv["pos"](c_, x), lambda l: inv["ivl"](c_, l), mirror)
+                                         for e in _split_events(v)))
+            elif k_ == "exon_number" and f["strand"] == ".":
+                at[k_] = "E"
+        rows.append((c_, f["feature"], iv, inv["strand"](f["strand"]), tuple(sorted(at.items()))))
+    return sorted(rows)
+
+
 def canon_outputs(outdir, prefix, inv, mirror):
     """all output files of a run, coordinates mapped back by `inv` (dict of functions), in canonical order.
     `inv`: {'pos': chr,int->int, 'ivl': chr,list->list (sorted), 'strand': s->s}"""
@@ -1310,6 +1348,7 @@ def canon_outputs(outdir, prefix, inv, mirror):
             chain_of[tid] = (c, inv["strand"](s), chain) if novel else tid
             rows.append((c, inv["strand"](s), ident, ("novel_gene" if (gid or "").startswith("novel_gene") else gid), chain))
         res[key] = sorted(rows)
+        res["FULL:" + key] = _full_gtf_rows(P, files[fn], inv, mirror)
     for key in ("transcript_model_counts.tsv", "transcript_model_tpm.tsv", "transcript_counts.tsv", "transcript_tpm.tsv",
                 "gene_counts.tsv", "gene_tpm.tsv"):
         fn = "%s.%s" % (prefix, key)
@@ -1356,6 +1395,23 @@ def canon_outputs(outdir, prefix, inv, mirror):
             blocks = [(st + s + 1, st + s + z) for s, z in zip(starts, sizes)]
             rows.append((b[3], c, inv["strand"](b[5]), tuple(inv["ivl"](c, blocks))))
         res["corrected_reads.bed"] = sorted(rows)
+    fn = "%s.novel_vs_known.SQANTI-like.tsv" % prefix
+    if fn in files:
+        rows = []
+        with open(files[fn]) as f:
+            for l in f:
+                p = l.rstrip("\n").split("\t")
+                if not p or p[0] == "isoform" or len(p) < 15:
+                    continue
+                p[0] = re.sub(r"\d+", "N", p[0])            # novel ids are numbered in coordinate order
+                p[2] = inv["strand"](p[2])
+                ev = p[14].split(";")
+                p[14] = ";".join(sorted(T.swap_lr(e) if mirror else e for e in ev))
+                if mirror and len(p) > 38 and p[38] not in ("NA", ""):
+                    # seq_A_downstream_TTS is printed in REFERENCE orientation: its mirror image is the reverse complement
+                    p[38] = "".join(T.synth.COMP.get(c_, "N") for c_ in reversed(p[38].upper()))
+                rows.append(tuple(p))
+        res["SQANTI"] = sorted(rows)
     for key in ("exon_counts.tsv", "intron_counts.tsv"):
         fn = "%s.%s" % (prefix, key)
         if fn not in files:
@@ -1393,13 +1449,90 @@ def _classify_pipeline_diff(diffs, L_of):
     pipeline-level face of the listed finder finding (`finder_position`)"""
     kinds = set()
     for d in diffs:
-        if d["file"] != "read_assignments.tsv":
+        if d["file"] not in ("read_assignments.tsv", "FULL:transcript_models.gtf", "FULL:extended_annotation.gtf"):
             kinds.add("other")
             continue
         a = [re.sub(r"(%s)\w*:(\d+)" % "|".join(POS_EVENTS), lambda m: m.group(0).split(":")[0] + ":P", x) for x in d["only_original"]]
         b = [re.sub(r"(%s)\w*:(\d+)" % "|".join(POS_EVENTS), lambda m: m.group(0).split(":")[0] + ":P", x) for x in d["only_transformed"]]
         kinds.add("polya_position" if sorted(a) == sorted(b) else "other")
     return "finder_position" if kinds == {"polya_position"} else "pipeline_mirror"
+
+
+def apply_model_end_map(key, rows, fm):
+    """rows of one canonical output file with the model chains of `fm` ({(chr, strand, chain): chain of the original run})
+    replaced -- by file layout, strand-aware (a '+' and a '-' model may share an interval)"""
+    out = []
+    for r in rows:
+        if key in ("transcript_models.gtf", "extended_annotation.gtf"):
+            c, st, ident, gid, chain = r
+            r = (c, st, ident, gid, fm.get((c, st, chain), chain))
+        elif key.startswith("FULL:"):
+            c, feat, iv, st, at = r
+            r = (c, feat, fm.get((c, st, (iv,)), (iv,))[0], st, at)
+        elif key in ("transcript_model_counts.tsv", "transcript_model_tpm.tsv"):
+            k_, vals = r
+            for (c, st, chain), new in fm.items():
+                if k_ == str((c, st, chain)):
+                    k_ = str((c, st, new))
+                    break
+            r = (k_, vals)
+        elif key == "transcript_model_reads.tsv":
+            rd, k_ = r
+            for (c, st, chain), new in fm.items():
+                if k_ == str((c, st, chain)):
+                    k_ = str((c, st, new))
+                    break
+            r = (rd, k_)
+        out.append(r)
+    return sorted(out, key=repr)
+
+
+def finder_model_end_map(base, tr):
+    """class `finder_model_end` (audit2-C G4, the pipeline-level face of the listed finding polya_finder_not_mirror_dual
+    on MODEL coordinates): a novel mono-exonic model gets its 3' end from the tail position of its reads; a polyT
+    position is reported 2 bases outside the first aligned base, a polyA position exactly at the last one.  A '-' model
+    of the original run therefore starts 2 bases earlier than in the mapped-back mirrored run (where it is a '+' model),
+    and a '+' model ends 2 bases later in the mapped-back mirrored run.  -> {(chr, strand, chain of the transformed run):
+    chain of the original run}, only for pairs with identical 5' end and exactly this 2-base difference."""
+    mapping = {}
+    for key in ("transcript_models.gtf", "extended_annotation.gtf"):
+        o = [r for r in base.get(key, []) if r not in tr.get(key, [])]
+        t = [r for r in tr.get(key, []) if r not in base.get(key, [])]
+        for (c, st, ident, gid, chain) in t:
+            if ident[0] != "novel" or len(chain) != 1:
+                continue
+            (a, b), = chain
+            want = ((a - 2, b),) if st == "-" else ((a, b - 2),) if st == "+" else None
+            if want and (c, st, ident, gid, want) in o:
+                mapping[(c, st, chain)] = want
+    return mapping
+
+
+PENDING_SEEN = {}
+
+
+def strip_pending_classes(base, tr):
+    """the two classes of the option set --sqanti_output --check_canonical that builder c18x repairs, keyed on the columns /
+    records they live in; -> (base', tr', {class: rows})
+      sqanti_downstream_window (audit2-C G1): a SQANTI-like row that differs ONLY in columns 38 / 39 (percentage and
+          sequence of the A-rich window downstream of the TTS: cut at the loaded region, wraps around for '-');
+      canonical_unknown_strand (G3): a GTF record of a '.'-strand model that differs ONLY in its `Canonical` attribute
+          (looked up as '-')"""
+    base, tr = dict(base), dict(tr)
+    seen = {}
+    if base.get("SQANTI") != tr.get("SQANTI") and "SQANTI" in base and "SQANTI" in tr:
+        cut = lambda rows: sorted(r[:37] + r[39:] for r in rows)       # columns 38, 39: perc_A_downstream_TTS, seq_A_downstream_TTS
+        if cut(base["SQANTI"]) == cut(tr["SQANTI"]):
+            seen["sqanti_downstream_window"] = len(set(base["SQANTI"]) ^ set(tr["SQANTI"])) // 2
+            base["SQANTI"], tr["SQANTI"] = cut(base["SQANTI"]), cut(tr["SQANTI"])
+    for key in ("FULL:transcript_models.gtf", "FULL:extended_annotation.gtf"):
+        if key in base and key in tr and base[key] != tr[key]:
+            drop = lambda rows: sorted((c, f, iv, st, tuple(a for a in at if not (st == "." and a[0] == "Canonical")))
+                                       for c, f, iv, st, at in rows)
+            if drop(base[key]) == drop(tr[key]):
+                seen["canonical_unknown_strand"] = seen.get("canonical_unknown_strand", 0) + len(set(base[key]) ^ set(tr[key])) // 2
+                base[key], tr[key] = drop(base[key]), drop(tr[key])
+    return base, tr, seen
 
 
 _BASE_CACHE = {}
@@ -1415,12 +1548,12 @@ ODD_CASE = "Odd case for exon elongation"
 MON_STATS = {"elong_calls": 0, "corrector_calls": 0, "assigner_calls": 0, "runs": 0}
 
 
-def _monitored_run(P, d, tag, paths, extra):
+def _monitored_run(P, d, tag, paths, extra, data_type="nanopore", genedb=True, prefix="S"):
     """-> (rc, log, failure or None)"""
     import mon_wrap
     mon = os.path.join(d, "mon_%s.jsonl" % tag)
     out = os.path.join(d, tag)
-    rc, log = P.run_isoquant(out, P.std_args(paths, threads=1, extra=extra), wrapper=MON_WRAP,
+    rc, log = P.run_isoquant(out, P.std_args(paths, prefix=prefix, threads=1, extra=extra, data_type=data_type, genedb=genedb), wrapper=MON_WRAP,
                              env={"MON_FILE": mon, "MON_SET": "elong,c14events,penalty"})
     calls, viol = mon_wrap.read_monitor(mon)
     MON_STATS["runs"] += 1
@@ -1492,24 +1625,30 @@ def pipeline_case(kw, keep=None):
     # the loci with two polyA clusters within tolerance of one read end are used for translation only: under reflection
     # they show the listed finding `thread_mirror` (thread_ends / thread_starts both take the lowest coordinate)
     special = True if mode == "shift" else "no_clusters"
-    ds = T.metamorphic_dataset(seed, n_chroms=kw.get("n_chroms", 2), genes_per_chrom=kw.get("genes", 3),
-                               reads_per_tx=kw.get("reads_per_tx", 5), novel=kw.get("novel", True), special=special)
+    dataset = kw.get("dataset", "metamorphic")
+    data_type, genedb = kw.get("data_type", "nanopore"), kw.get("genedb", True)
+    prefix = kw.get("prefix", "S")       # `-p S --sqanti_output` aborts (rreplace hits "SQANTI"; docs/C06): the sqanti option set uses another one
+    if dataset == "mono_antisense":
+        ds = T.mono_antisense_dataset(seed, kw.get("n_plus", 3), kw.get("n_minus", 9))
+    else:
+        ds = T.metamorphic_dataset(seed, n_chroms=kw.get("n_chroms", 2), genes_per_chrom=kw.get("genes", 3),
+                                   reads_per_tx=kw.get("reads_per_tx", 5), novel=kw.get("novel", True), special=special)
     d = keep or tempfile.mkdtemp(prefix="isoverif_c11_")
     try:
         extra = ["--count_exons"] + list(kw.get("extra", []))
         key = (seed, special, kw.get("n_chroms", 2), kw.get("genes", 3), kw.get("reads_per_tx", 5), kw.get("novel", True), tuple(extra),
-               vlib.REPO)
+               vlib.REPO, dataset, data_type, genedb, kw.get("n_plus", 3), kw.get("n_minus", 9), prefix)
         if key in _BASE_CACHE and not keep:
             base = _BASE_CACHE[key]
         else:
             p0 = ds.write(os.path.join(d, "in0"))
-            rc, log, hyp = _monitored_run(P, d, "out0", p0, extra)
+            rc, log, hyp = _monitored_run(P, d, "out0", p0, extra, data_type, genedb, prefix)
             if hyp:
                 return hyp
             if rc != 0:
                 return ("pipeline_crash", "original run rc=%s: %s" % (rc, log[-400:]))
             ident = {"pos": lambda c, v: v, "ivl": lambda c, l: list(l), "strand": lambda s: s}
-            base = canon_outputs(os.path.join(d, "out0"), "S", ident, False)
+            base = canon_outputs(os.path.join(d, "out0"), prefix, ident, False)
             _BASE_CACHE[key] = base
         if mode == "shift":
             k = kw["k"]
@@ -1523,21 +1662,273 @@ def pipeline_case(kw, keep=None):
             inv = {"pos": lambda c, v: Ls[c] + 1 - v, "ivl": lambda c, l: T.mirror_l(Ls[c], l), "strand": lambda s: fl.get(s, s)}
             mirror = True
         p1 = ds2.write(os.path.join(d, "in1"))
-        rc, log, hyp = _monitored_run(P, d, "out1", p1, extra)
+        rc, log, hyp = _monitored_run(P, d, "out1", p1, extra, data_type, genedb, prefix)
         if hyp:
             return hyp
         if rc != 0:
             return ("pipeline_crash", "transformed run rc=%s: %s" % (rc, log[-400:]))
-        tr = canon_outputs(os.path.join(d, "out1"), "S", inv, mirror)
+        tr = canon_outputs(os.path.join(d, "out1"), prefix, inv, mirror)
         diffs = diff_outputs(base, tr)
         if not diffs:
             return None
         if mode == "shift":
             return ("pipeline_shift", "k=%d: %s" % (kw["k"], diffs[:2]))
+        base, tr, pend = strip_pending_classes(base, tr)
+        if pend:
+            PENDING_SEEN.update({k_: PENDING_SEEN.get(k_, 0) + v for k_, v in pend.items()})
+            diffs = diff_outputs(base, tr)
+            if not diffs:
+                return ("pending:" + "+".join(sorted(pend)), "%s" % pend)
+        fm = finder_model_end_map(base, tr)
+        if fm:
+            # model ends that differ by exactly the finder's 2-base polyT offset: mapped onto the original chains, the
+            # rest must agree (up to the position payloads of the same finding)
+            tr2 = {k_: apply_model_end_map(k_, v, fm) for k_, v in tr.items()}
+            base2 = {k_: sorted(v, key=repr) for k_, v in base.items()}
+            diffs2 = diff_outputs(base2, tr2)
+            if not diffs2 or _classify_pipeline_diff(diffs2, None) == "finder_position":
+                return ("finder_position", "finder_model_end %s; %s" % (sorted(fm.items(), key=repr), diffs[:1]))
+            return ("pipeline_mirror", "%s" % diffs2[:2])
         return (_classify_pipeline_diff(diffs, None), "%s" % diffs[:2])
     finally:
         if not keep:
             shutil.rmtree(d, ignore_errors=True)
+
+
+# ---- O5b: metamorphic runs on REAL / NOISY alignments (the repo's toy data, c14gen.noisy_dataset) with the differences
+#      attributed to named mechanisms (audit2-C C11 recommendation 2)
+
+MICRO_INTRON_LEN = 50        # params.micro_intron_length of the nanopore preset
+
+# classes that other builders' repairs remove (audit2-C): reported in the evidence (`pending_repair_classes`) and in the
+# notes, not as failures, until the repair is in the tree -- then their counts are 0.  Any read outside every class is a
+# failure (`pipeline_mirror`).
+PENDING_REPAIR_KINDS = {
+    "sqanti_downstream_window": "audit2-C G1 (builder c18x): the SQANTI-like downstream-A window is cut at the loaded region and "
+                                "wraps around for '-' (columns perc_A_downstream_TTS / seq_A_downstream_TTS)",
+    "canonical_unknown_strand": "audit2-C G3 (builder c18x): `Canonical` of a '.'-strand model is looked up as '-'",
+    "micro_intron_last_exon": "audit2-C G5 (builder c11a): ExonCorrector.correct_misalignments never restores a retained "
+                              "micro-intron in the LAST read exon (event key -k-1 with k = len(introns) is not visited)",
+    "micro_intron_several_per_exon": "audit2-C G6 (builder c11a): several micro-introns retained in one read exon share the "
+                                     "dict key -k-1, only the last one is restored",
+}
+
+
+def _introns_of(blocks):
+    return [(blocks[i][1] + 1, blocks[i + 1][0] - 1) for i in range(len(blocks) - 1)]
+
+
+def bed_micro_class(o_blocks, t_blocks, events):
+    """class of a corrected_reads.bed difference of one read (original run vs mapped-back mirrored run), keyed on the
+    mechanism: the two block lists have the same outer ends and differ only by restored micro-introns (<= 50 bp) of a read
+    that carries `fake_micro_intron_retention`; G5 if every such intron lies in the first / last exon of the read (the
+    exon the event loop of one orientation never reaches), G6 if some read exon holds several micro-introns.
+    -> class name or None (not explained)"""
+    if not o_blocks or not t_blocks or o_blocks[0][0] != t_blocks[0][0] or o_blocks[-1][1] != t_blocks[-1][1]:
+        return None
+    io, it = set(_introns_of(o_blocks)), set(_introns_of(t_blocks))
+    sym = io ^ it
+    if not sym or any(b - a + 1 > MICRO_INTRON_LEN for a, b in sym) or "fake_micro_intron_retention" not in events:
+        return None
+    common = sorted(io & it)
+    bounds = [o_blocks[0][0]] + [x for a, b in common for x in (a - 1, b + 1)] + [o_blocks[-1][1]]
+    exons = [(bounds[i], bounds[i + 1]) for i in range(0, len(bounds), 2)]      # read exons without any micro-intron
+    inside = lambda ex: [m for m in sorted(io | it) if m not in common and ex[0] <= m[0] and m[1] <= ex[1]]
+    if all(any(ex[0] <= a and b <= ex[1] for ex in (exons[0], exons[-1])) for a, b in sym) and \
+            all(len(inside(ex)) <= 1 for ex in exons):
+        return "micro_intron_last_exon"
+    if any(len(inside(ex)) >= 2 for ex in exons):
+        return "micro_intron_several_per_exon"
+    return None
+
+
+def _raw_blocks(read):
+    """aligned blocks (1-based closed) of a synth read record: M/=/X/D extend a block, N separates two"""
+    pos, cur, out = read["start0"] + 1, None, []
+    for n, op in T.cigar_ops(read["cigar"]):
+        if op in "M=XD":
+            cur = (cur[0], pos + n - 1) if cur else (pos, pos + n - 1)
+            pos += n
+        elif op == "N":
+            if cur:
+                out.append(cur)
+            cur = None
+            pos += n
+    if cur:
+        out.append(cur)
+    return out
+
+
+def equidistant_tie_class(raw_blocks, annotated, o_blocks, t_blocks):
+    """an EXACT positional tie of a noisy alignment (outside the property's quantifier): the two corrected block lists
+    differ only in introns that are both annotated and EQUALLY distant (|start diff| + |end diff|, `match_delta`) from one
+    raw intron of the read -- `match_genomic_features` takes the first of them in coordinate order, which is the other one
+    in the mirrored run.  -> True / False"""
+    if not o_blocks or not t_blocks or o_blocks[0][0] != t_blocks[0][0] or o_blocks[-1][1] != t_blocks[-1][1]:
+        return False
+    io, it = set(_introns_of(o_blocks)), set(_introns_of(t_blocks))
+    only_o, only_t = sorted(io - it), sorted(it - io)
+    if not only_o or len(only_o) != len(only_t):
+        return False
+    raw = _introns_of(raw_blocks)
+    md = lambda a, b: abs(a[0] - b[0]) + abs(a[1] - b[1])
+    for a, b in zip(only_o, only_t):
+        ok = False
+        for r in raw:
+            if not (r[0] <= a[1] and a[0] <= r[1]):
+                continue
+            near = sorted((md(r, k_), k_) for k_ in annotated if k_[0] <= r[1] and r[0] <= k_[1])
+            tied = [k_ for d_, k_ in near if d_ == near[0][0]] if near else []
+            # the raw intron has (at least) two nearest annotated introns at the SAME distance, and each run shows an intron
+            # whose two sites are sites of the raw intron or of one of them (the corrector may move one site only)
+            starts, ends = {k_[0] for k_ in tied + [r]}, {k_[1] for k_ in tied + [r]}
+            if len(tied) >= 2 and a[0] in starts and a[1] in ends and b[0] in starts and b[1] in ends:
+                ok = True
+        if not ok:
+            return False
+    return True
+
+
+def _rows_by_read(canon, key):
+    out = {}
+    for r in canon.get(key, []):
+        out.setdefault(r[0], []).append(r)
+    return out
+
+
+def real_data_case(kw, keep=None):
+    """reflection of a real / noisy data set: -> (kind, detail) or None.
+    1. both orientations with the REAL finder; equal -> None.
+    2. both with `find_polyt_head` := exact mirror dual of the real `find_polya_tail` (mon_wrap `dualfinder`); if the
+       differences are gone they are the listed finding polya_finder_not_mirror_dual -> `finder_window`.
+    3. the reads whose corrected_reads.bed line still differs are classified by `bed_micro_class`; a read outside these
+       classes, or one that differs in read_assignments.tsv while its corrected exons agree -> `pipeline_mirror`.
+    4. the classified reads are REMOVED from the input and both orientations are run again (dual finder): every output
+       file must now agree (so that differences of count tables / models are not excused by hand) -> else `pipeline_mirror`.
+    Quick tier: step 1 is skipped (`skip_real_finder`)."""
+    P = _pipeline()
+    dataset = kw["dataset"]
+    if dataset == "toy":
+        ds = T.toy_dataset(vlib.REPO)
+    else:
+        from gen import c14gen
+        ds = c14gen.noisy_dataset(kw["seed"])[0]
+    # the statement's quantifier: "the model comparison under reflection [is] restricted to noise-free alignments because
+    # representatives among near-identical noisy junctions and ends are chosen by coordinate order" -- these alignments are
+    # noisy, so the reflection runs compare everything but the discovered models
+    extra = ["--count_exons", "--no_model_construction"] + list(kw.get("extra", []))
+    Ls = {c: len(s) for c, s in ds.chroms.items()}
+    fl = {"+": "-", "-": "+", ".": "."}
+    inv = {"pos": lambda c, v: Ls[c] + 1 - v, "ivl": lambda c, l: T.mirror_l(Ls[c], l), "strand": lambda s: fl.get(s, s)}
+    ident = {"pos": lambda c, v: v, "ivl": lambda c, l: list(l), "strand": lambda s: s}
+    d = keep or tempfile.mkdtemp(prefix="isoverif_c11r_")
+    n_run = [0]
+    if kw.get("mode") == "shift":
+        # translation: no restriction on the models -- every file, discovered models included
+        import random
+        k = kw["k"]
+        try:
+            res = []
+            for tag, dd, iv in (("o", ds, ident), ("s", T.shifted_dataset(ds, k, random.Random(k)),
+                                                   {"pos": lambda c, v: v - k, "ivl": lambda c, l: [(a - k, b - k) for a, b in l],
+                                                    "strand": lambda s: s})):
+                paths = dd.write(os.path.join(d, tag, "in"))
+                rc, log = P.run_isoquant(os.path.join(d, tag, "out"), P.std_args(paths, threads=1, extra=["--count_exons"] + list(kw.get("extra", []))))
+                if rc != 0:
+                    return ("pipeline_crash", "%s run %s rc=%s: %s" % (dataset, tag, rc, log[-300:]))
+                res.append(canon_outputs(os.path.join(d, tag, "out"), "S", iv, False))
+            diffs = diff_outputs(res[0], res[1])
+            return ("pipeline_shift", "%s k=%d: %s" % (dataset, k, diffs[:2])) if diffs else None
+        finally:
+            if not keep:
+                shutil.rmtree(d, ignore_errors=True)
+
+    def both(dset, monset):
+        res = []
+        for tag, dd, iv, mir in (("o", dset, ident, False), ("m", T.mirrored_dataset(dset), inv, True)):
+            n_run[0] += 1
+            sub = os.path.join(d, "%s%d" % (tag, n_run[0]))
+            paths = dd.write(os.path.join(sub, "in"))
+            rc, log = P.run_isoquant(os.path.join(sub, "out"), P.std_args(paths, threads=1, extra=extra), wrapper=MON_WRAP,
+                                     env={"MON_FILE": os.path.join(sub, "mon.jsonl"), "MON_SET": monset})
+            if rc != 0:
+                raise RuntimeError("run %s rc=%s: %s" % (tag, rc, log[-300:]))
+            res.append(canon_outputs(os.path.join(sub, "out"), "S", iv, mir))
+        return res
+    try:
+        seen = {}
+        if not kw.get("skip_real_finder"):
+            b, t = both(ds, "penalty")
+            if not diff_outputs(b, t):
+                return None
+        b, t = both(ds, "penalty,dualfinder")
+        diffs = diff_outputs(b, t, limit=10 ** 6)
+        if not diffs:
+            return ("finder_window", "%s: every difference under reflection disappears when find_polyt_head is replaced by the "
+                    "mirror dual of find_polya_tail" % dataset)
+        ra_o, ra_t = _rows_by_read(b, "read_assignments.tsv"), _rows_by_read(t, "read_assignments.tsv")
+        bed_o, bed_t = _rows_by_read(b, "corrected_reads.bed"), _rows_by_read(t, "corrected_reads.bed")
+        explained, unexplained = {}, []
+        annotated = {(ex[i][1] + 1, ex[i + 1][0] - 1) for g in ds.genes for _, ex in g["transcripts"] for i in range(len(ex) - 1)}
+        raw = {r["name"]: r for r in ds.reads}
+        for r in sorted(set(bed_o) | set(bed_t)):
+            if bed_o.get(r) == bed_t.get(r):
+                continue
+            events = {e.split(":")[0] for row in ra_o.get(r, []) for e in row[6]}
+            cls = None
+            if len(bed_o.get(r, [])) == 1 and len(bed_t.get(r, [])) == 1:
+                ob, tb = list(bed_o[r][0][3]), list(bed_t[r][0][3])
+                cls = bed_micro_class(ob, tb, events)
+                if cls is None and r in raw and equidistant_tie_class(_raw_blocks(raw[r]), annotated, ob, tb):
+                    cls = "equidistant_intron_tie"
+            if cls:
+                explained[r] = cls
+            else:
+                unexplained.append((r, bed_o.get(r), bed_t.get(r)))
+        if unexplained:
+            return ("pipeline_mirror", "%s (dual finder): corrected_reads.bed differs for %d read(s) outside the named classes, "
+                    "e.g. %s" % (dataset, len(unexplained), unexplained[0]))
+        # a read whose corrected exons differ may also differ in what is derived from them (strand from the splice sites of
+        # the corrected introns, hence tss/tes vs terminal_position event names); any OTHER read must agree
+        bad_ra = sorted(r for r in set(ra_o) | set(ra_t) if ra_o.get(r) != ra_t.get(r) and r not in explained)
+        if bad_ra:
+            return ("pipeline_mirror", "%s (dual finder): read_assignments.tsv differs for %d read(s) whose corrected exons agree, "
+                    "e.g. %s vs %s" % (dataset, len(bad_ra), ra_o.get(bad_ra[0]), ra_t.get(bad_ra[0])))
+        if not explained:
+            return ("pipeline_mirror", "%s (dual finder): %s" % (dataset, diffs[:2]))
+        for cls in explained.values():
+            seen[cls] = seen.get(cls, 0) + 1
+        red = T.copy_dataset(ds)
+        red.reads = [r for r in red.reads if r["name"] not in explained]
+        b2, t2 = both(red, "penalty,dualfinder")
+        diffs2 = diff_outputs(b2, t2)
+        if diffs2:
+            return ("pipeline_mirror", "%s (dual finder, %d classified reads removed): %s" % (dataset, len(explained), diffs2[:2]))
+        pend = sorted(k_ for k_ in seen if k_ in PENDING_REPAIR_KINDS)
+        detail = "%s: %s; with these reads removed all output files agree (%d reads left)" % (dataset, seen, len(red.reads))
+        if not pend:
+            return ("quantifier:equidistant_intron_tie", detail)      # exact positional ties of noisy alignments only
+        return ("pending:" + "+".join(pend), detail)
+    finally:
+        if not keep:
+            shutil.rmtree(d, ignore_errors=True)
+
+
+def real_data_plan(ctx):
+    quick = ctx.tier == "quick"
+    if quick:
+        return [{"dataset": "toy", "mode": "mirror", "skip_real_finder": True}]
+    plan = [{"dataset": "toy", "mode": "mirror"}, {"dataset": "toy", "mode": "shift", "k": 768}, {"dataset": "toy", "mode": "shift", "k": 1000}]
+    for i in range(4):
+        plan.append({"dataset": "noisy", "mode": "mirror", "seed": ctx.seed % 1000 + i})
+    plan.append({"dataset": "noisy", "mode": "shift", "seed": ctx.seed % 1000, "k": 257})
+    return plan
+
+
+def _no_pending(r):
+    """a run whose only differences are classes awaiting another builder's repair is not a failure (it is counted in
+    PENDING_SEEN -> evidence `pending_repair_classes` + a PENDING-REPAIR note)"""
+    return None if (r and isinstance(r, tuple) and r[0].startswith("pending:")) else r
 
 
 def pipeline_plan(ctx):
@@ -1554,7 +1945,45 @@ def pipeline_plan(ctx):
         for k in ks:
             plan.append({"mode": "shift", "seed": s, "k": k})
         plan.append({"mode": "mirror", "seed": s})
+    # audit2-C G2: overlapping antisense mono-exonic loci, --report_novel_unspliced true (both support orders)
+    g2 = {"dataset": "mono_antisense", "seed": 3, "extra": ["--report_novel_unspliced", "true"]}
+    plan.append(dict(g2, mode="mirror"))
+    plan.append(dict(g2, mode="mirror", n_plus=9, n_minus=3))
+    plan.append(dict(g2, mode="shift", k=ctx.rng.choice(SHIFTS + [257])))
+    # option sets the standard runs never use, rotated over the seeds (the metamorphic data set; reflection + one shift)
+    n_opt = 1 if quick else len(OPTION_SETS)
+    start = ctx.seed % len(OPTION_SETS)
+    for j in range(n_opt):
+        name, okw = OPTION_SETS[(start + j) % len(OPTION_SETS)]
+        s = seeds[j % len(seeds)]
+        if not okw.get("shift_only"):
+            plan.append(dict(okw, mode="mirror", seed=s, option_set=name))
+        plan.append(dict(okw, mode="shift", seed=s, k=ctx.rng.choice(SHIFTS + [257, 70001]), option_set=name))
     return plan
+
+
+# option sets of the real pipeline that the standard metamorphic runs never use (audit2-C C11 recommendation 2); every run
+# adds --count_exons.  `sqanti_canon` meets two defects builder c18x repairs (G1, G3): `strip_pending_classes`.
+OPTION_SETS = [
+    ("pacbio", {"data_type": "pacbio_ccs"}),
+    ("assembly", {"data_type": "assembly"}),
+    # without annotation EVERY model end comes from the read ends; the r_* reads of the data set have randomly truncated ends
+    # without a unique mode, and the end of a discovered model is the most frequent read end with ties broken by coordinate
+    # order (docs/C11.md section 5 "ends of discovered models under tied read-end counts"): translation only, see the report
+    ("nogenedb", {"genedb": False, "shift_only": True}),
+    ("stranded_fwd", {"extra": ["--stranded", "forward"]}),
+    ("mcs_sensitive_ont_unspliced", {"extra": ["--model_construction_strategy", "sensitive_ont", "--report_novel_unspliced", "true"]}),
+    ("mcs_all_unspliced", {"extra": ["--model_construction_strategy", "all", "--report_novel_unspliced", "true", "--report_canonical", "all"]}),
+    ("match_precise", {"extra": ["--matching_strategy", "precise", "--splice_correction_strategy", "all"]}),
+    ("match_loose", {"extra": ["--matching_strategy", "loose", "--splice_correction_strategy", "none"]}),
+    ("polya_never", {"extra": ["--polya_requirement", "never"]}),
+    ("polya_always", {"extra": ["--polya_requirement", "always"]}),
+    ("quant_all", {"extra": ["--transcript_quantification", "all", "--gene_quantification", "all"]}),
+    ("delta0", {"extra": ["--delta", "0"]}),
+    ("delta20", {"extra": ["--delta", "20"]}),
+    ("highmem", {"extra": ["--high_memory"]}),
+    ("sqanti_canon", {"extra": ["--sqanti_output", "--check_canonical"], "prefix": "Q7x"}),
+]
 
 
 # ---- driver of the oracle
@@ -1583,6 +2012,9 @@ def _run(ctx, kind_default, inp, fn):
 def oracle(ctx, disagreements, broken):
     quick = ctx.tier == "quick"
     n = 0
+    for kw in END_TIE_REGRESSIONS:
+        _run(ctx, "assigner", dict(kw, what="assigner"), lambda i: assigner_case(i))
+        n += 1
     # seeded with the disagreeing inputs
     for d in disagreements:
         name = d["op"].split(":", 1)[-1]
@@ -1637,6 +2069,8 @@ def oracle(ctx, disagreements, broken):
     with ElongMonitor() as em:
         for kw in REGRESSIONS + gen_assigner_cases(ctx.rng, na):
             n0 = len(em.records)
+            if has_end_tie([(t, g, s_, _tl(ex)) for t, g, s_, ex in kw["models"]], _tl(kw["read"]), _params()):
+                ctx.count("assigner_end_tie_inputs")       # counted only: ordinary inputs since the repair of G7
             _run(ctx, "assigner", dict(kw, what="assigner"), lambda i: assigner_case(i))
             n += 1
             if len(em.records) > n0:
@@ -1647,17 +2081,44 @@ def oracle(ctx, disagreements, broken):
     ctx.extra["hypothesis_monitor_inprocess"] = {"what": "ElongWF / HasCommon on every real categorize_exon_elongation_subtype call of O4; penalty_score >= 0 on every assignment",
                                                  "calls": em.calls, "violations": len(em.records)}
     ctx.extra["oracle_inprocess_cases"] = n
-    # witness replays: the asymmetries that are theorems of the model are reproduced on the real code
+    # the inputs of the pre-fix witnesses (Props/C11.lean overlapsAtLeastBuggy_mirror_witness /
+    # overlapsAtLeastWhenOverlapBuggy_mirror_witness) on the real code: both orientations must agree (regression of G7)
     C, _, _ = _impl()
-    w = (C.overlaps_at_least((1, 5), (1, 9), 10), C.overlaps_at_least(T.mirror_iv(9, (1, 5)), T.mirror_iv(9, (1, 9)), 10))
-    ctx.extra["overlaps_at_least_tie_witness_on_real_code"] = {"original": w[0], "mirrored": w[1]}
-    if w != (True, False):
-        ctx.notes.append("overlaps_at_least tie witness no longer reproduces on the real code: %s" % (w,))
+    w = (C.overlaps_at_least((1, 5), (1, 9), 10), C.overlaps_at_least(T.mirror_iv(9, (1, 5)), T.mirror_iv(9, (1, 9)), 10),
+         C.overlaps_at_least_when_overlap((3002, 3005), (3002, 3225), 5),
+         C.overlaps_at_least_when_overlap(T.mirror_iv(9000, (3002, 3005)), T.mirror_iv(9000, (3002, 3225)), 5))
+    ctx.extra["overlaps_at_least_tie_regression_on_real_code"] = {"overlaps_at_least": list(w[:2]), "when_overlap": list(w[2:])}
     # O5 pipeline (search only)
     runs = 0
+    PENDING_SEEN.clear()
     for kw in pipeline_plan(ctx):
-        _run(ctx, "pipeline", dict(kw, what="pipeline"), lambda i: pipeline_case(i))
+        r = _run(ctx, "pipeline", dict(kw, what="pipeline"), lambda i: _no_pending(pipeline_case(i)))
         runs += 1
+    # O5b real / noisy alignments with the differences attributed to named mechanisms
+    pend, rd = {}, []
+    for kw in real_data_plan(ctx):
+        inp = dict(kw, what="realdata")
+        try:
+            r = real_data_case(kw)
+        except Exception as ex:
+            r = ("pipeline_crash", "%s: %s" % (type(ex).__name__, str(ex)[:300]))
+        runs += 1
+        rd.append({"input": kw, "result": list(r) if r else None})
+        if not r:
+            continue
+        if r[0].startswith("pending:"):
+            for k_ in r[0][len("pending:"):].split("+"):
+                pend[k_] = pend.get(k_, 0) + 1
+            ctx.notes.append("PENDING-REPAIR property=C11 %s [%s]" % (r[1], "; ".join(PENDING_REPAIR_KINDS[k_] for k_ in r[0][8:].split("+"))))
+        elif r[0].startswith("quantifier:"):
+            ctx.count("realdata_" + r[0])
+        else:
+            _fail(ctx, r[0], inp, r[1])
+    for k_, v in PENDING_SEEN.items():       # classes stripped inside pipeline_case (option set sqanti_canon)
+        pend[k_] = pend.get(k_, 0) + v
+        ctx.notes.append("PENDING-REPAIR property=C11 %s rows=%d [%s]" % (k_, v, PENDING_REPAIR_KINDS[k_]))
+    ctx.extra["pending_repair_classes"] = pend
+    ctx.extra["real_data_runs"] = rd
     ctx.extra["pipeline_metamorphic_runs"] = runs
     ctx.extra["hypothesis_monitor_pipeline"] = dict(MON_STATS, what="ElongWF / HasCommon per categorize_exon_elongation_subtype call, "
                                                     "event index ranges per correct_assigned_read call, 'Odd case' warnings in the logs")
@@ -1700,6 +2161,8 @@ def replay(ctx, failure):
             return thread_mirror_case(inp) is not None
         if what == "pipeline":
             return same_kind(pipeline_case(inp), "pipeline")
+        if what == "realdata":
+            return same_kind(real_data_case(inp), "pipeline")
         if what == "elong_hyp":
             return same_kind(elong_hypothesis_case(inp), "hyp")
         if what == "monitor_selftest":
